@@ -1,5 +1,6 @@
 """C15 — generated code has no reachable undefined behaviour on hostile data."""
 import os
+import re
 import subprocess
 import sys
 
@@ -41,6 +42,44 @@ RULE = ("access probes: 21 container shapes x {function, private} x {load, store
         "distinct by program + options + input")
 
 
+def rtguards(ck):
+    """MSL run-time-sized arrays: every guard `(size - OFF - A) / B` read from the real text must satisfy the hypotheses of
+    Props/C15.msl_runtime_elem_in_buffer: OFF = the member's WGSL offset, size(E) <= A <= stride(E), B = stride(E)."""
+    out = ck.harness("crtguards", 0)
+    if out is None:
+        return
+    rows = common.read_lines(os.path.join(out, "rows.txt"))
+    srcs = common.read_lines(os.path.join(out, "src.txt"))
+    texts = common.read_lines(os.path.join(out, "text.txt"))
+    stat = {"guards": 0, "ok": 0}
+    reported = set()
+    for r, s, tx in zip(rows, srcs, texts):
+        head, _, tag = r.partition(" | ")
+        ck.case("rtguard" + r, nontrivial=True)
+        bad = None
+        if head.startswith("guard "):
+            stat["guards"] += 1
+            m = re.match(r"guard off=(\d+) esz=(\d+) stride=(\d+) want off=(\d+) esz=(\d+) stride=(\d+)", head)
+            off, a, b, woff, wesz, wstride = map(int, m.groups())
+            if off == woff and b == wstride and wesz <= a <= wstride:
+                stat["ok"] += 1
+                continue
+            bad = "guard (size - %d - %d) / %d, WGSL layout: offset %d, element size %d, stride %d" % (off, a, b, woff, wesz, wstride)
+        elif head.startswith("noguard"):
+            bad = "no run-time bound in the emitted text"
+        else:
+            bad = head
+        key = re.sub(r"[0-9]+", "N", bad)[:60]
+        if key in reported:
+            continue
+        reported.add(key)
+        ck.violation({"kind": "msl-runtime-array-guard", "probe": tag, "what": bad, "wgsl": clike.unq(s[1:-1]), "emitted": clike.unq(tx[1:-1])[:5000],
+                      "how": "the bound the MSL writer computes for a run-time-sized array does not satisfy the hypotheses under which every "
+                             "admitted index stays inside the binding (msl_runtime_elem_in_buffer): with a 64-byte binding an index past the "
+                             "last whole element is admitted"}, found_input=True)
+    ck.extra["msl_runtime_array_guards"] = stat
+
+
 def run(ck):
     ck.rule = RULE
     ck.trusted = ["Lean kernel", "axioms: propext, Classical.choice, Quot.sound",
@@ -71,6 +110,7 @@ def run(ck):
         clike.expected_sweep(ck, t, "cwg", nwg, [t], "cwg-" + t, t + "-workgroup-not-zero",
                              "an entry point of the emitted %s reads a workgroup variable that was never stored (undefined), or does not "
                              "produce the value WGSL prescribes for zero-initialised workgroup memory" % t.upper())
+    rtguards(ck)
     if ck.tier == "thorough":
         ck.leanchecker(["Naga.Tie.CEmit", "Naga.Tie.C15", "Naga.Props.C15"])
     if not proved:
